@@ -164,12 +164,20 @@ class Sharing:
 
     def alias_init(self, b):
         """the initialiser of a reference local declared inside the region (`const std::vector<T> &loc = ord[tid];`), else None"""
-        if b is None or b['k'] != 'ref' or b['d'] not in self.private:
+        if b is None or b['k'] != 'ref':
             return None
         dd = self.f.decl(b['d'])
-        if not (dd.get('ref') or dd.get('ptr')):
+        if dd.get('k') != 'local' or not (dd.get('ref') or dd.get('ptr')):
             return None
-        for n in walk(self.r.node):
+        scope = self.r.node
+        if b['d'] not in self.private:
+            # a pointer / reference local of the enclosing function that is set once, before the region (const T *p = perm.data();)
+            mods = [n for n in self.f.nodes.values() if (n['k'] == 'bin' and n['op'] in ('=', '+=', '-=') and unwrap(n['x'])['k'] == 'ref' and unwrap(n['x'])['d'] == b['d'])
+                    or (n['k'] == 'un' and n['op'] in ('++', '--') and unwrap(n['e'])['k'] == 'ref' and unwrap(n['e'])['d'] == b['d'])]
+            if mods:
+                return None
+            scope = self.f.body
+        for n in walk(scope):
             if n['k'] == 'decl':
                 for v in n['v']:
                     if v['d'] == b['d'] and v.get('init') is not None:
